@@ -52,7 +52,7 @@ def gen_case(rng, idx, tier):
     sit = {n: rng.choice(SITUATIONS) for n in names}
     fault = None
     if rng.random() < 0.55:
-        fault = {"k": (idx % 4) + 1, "kind": rng.choice(["exit1", "stderr_error"])}
+        fault = {"k": (idx % 4) + 1, "kind": rng.choice(["exit1", "stderr_error", "exit1_silent", "exit1_stdout"])}
     pats = scenario.gen_selection(rng, names) if rng.random() < 0.6 else []
     return {
         "lane": "sim",
@@ -224,6 +224,7 @@ def run_pool(case):
         ts = [{"name": "a%d" % i, "ins_expr": "[]", "outs_expr": "['a%d.out']" % i, "spec": "sleep 30\n", "route": "target"} for i in range(3)]
         ts += [{"name": "b0", "ins_expr": "['a0.out']", "outs_expr": "['b0.out']", "spec": "sleep 30\n", "route": "target"}]
         ts += [{"name": "never", "ins_expr": "[]", "outs_expr": "['never.out']", "spec": "true\n", "route": "target"}]
+        ts += [{"name": "fin%d" % i, "ins_expr": "[]", "outs_expr": "['fin%d.out']" % i, "spec": "true\n", "route": "target"} for i in range(3)]
         proj.write_workflow(gen.render_workflow(ts))
         with realpool.Pool(proj, ncores=2) as pool:
             env = cli.env_for(None, ())
@@ -231,8 +232,11 @@ def run_pool(case):
             for _ in range(90):
                 pool.raw_enqueue("filler", "true", proj.root, time_limit=None, deps=[])
             pool.wait_states(lambda st: all(v == "COMPLETED" for v in st.values()), timeout=40)
+            # three targets whose jobs are over by the time anything is cancelled
+            rf = cli.gwf(proj.root, ["run", "fin0", "fin1", "fin2"], env, audit=False)
+            pool.wait_states(lambda st: all(v == "COMPLETED" for v in st.values()), timeout=40)
             r = cli.gwf(proj.root, ["run", "a0", "a1", "a2", "b0"], env, audit=False)
-            if r.rc != 0:
+            if r.rc != 0 or rf.rc != 0:
                 res.violation("crash", "gwf -b local run failed", **cli.crash_witness(r))
                 return res
             tid = proj.state_files().get("local-backend-tracked.json", {})
@@ -248,7 +252,9 @@ def run_pool(case):
                 res.violation("still-live-after-cancel", "local: b0 is %s after cancel" % st0.get(tid["b0"]))
             if st0.get(tid["a0"]) != before.get(tid["a0"]):
                 res.violation("cancel-wrong-ids", "local: cancelling the waiting target b0 changed the state of its dependency a0 from %s to %s" % (before.get(tid["a0"]), st0.get(tid["a0"])), states=st0)
-            r = cli.gwf(proj.root, ["cancel", "a0", "never"], env, audit=False)
+            # the selection mixes a running target, a never-submitted one and targets whose jobs have finished: the
+            # ones that cannot be cancelled must not keep the running one from being cancelled
+            r = cli.gwf(proj.root, ["cancel", "a0", "never", "fin0", "fin1", "fin2"], env, audit=False)
             res.mon("cancel_runs")
             res.mon("pool_cancels")
             if r.rc != 0:
